@@ -111,6 +111,11 @@ func VerifC18Activity() {
 	leading := true
 	steps := vParam("steps", 3)
 	for st := 0; st < steps; st++ {
+		// what happens between this step and the next: 0 = the dispatcher runs
+		// and all retry back-offs elapse, 1 = the dispatcher runs until it
+		// blocks (a back-off stays pending), 2 = the dispatcher does not get
+		// to run at all (operations are committed in a burst)
+		mode := 0
 		switch vChoose(3) {
 		case 0: // the next operation is committed
 			if len(pending) == 0 {
@@ -126,6 +131,9 @@ func VerifC18Activity() {
 			}
 			s.activity.SignalCommit()
 			vCover("commit")
+			if vParam("bursts", 1) == 1 {
+				mode = vChoose(3)
+			}
 		case 1: // leadership lost and regained
 			if !leading {
 				return
@@ -143,9 +151,13 @@ func VerifC18Activity() {
 			vAssert(s.activity.BecomeLeader() == nil, "start")
 			vCover("restart")
 		}
-		vYield()
-		vAdvance(time.Minute) // retry back-offs elapse
-		vYield()
+		if mode < 2 {
+			vYield()
+		}
+		if mode < 1 {
+			vAdvance(time.Minute) // retry back-offs elapse
+			vYield()
+		}
 	}
 	// let the dispatcher drain
 	for i := 0; i < 4; i++ {
